@@ -34,6 +34,7 @@ import (
 	dmsg "github.com/elastos/Elastos.ELA/dpos/p2p/msg"
 	dpeer "github.com/elastos/Elastos.ELA/dpos/p2p/peer"
 	"github.com/elastos/Elastos.ELA/elanet"
+	"github.com/elastos/Elastos.ELA/elanet/bloom"
 	"github.com/elastos/Elastos.ELA/elanet/pact"
 	"github.com/elastos/Elastos.ELA/p2p"
 	"github.com/elastos/Elastos.ELA/p2p/msg"
@@ -82,6 +83,16 @@ func stackCreate(st string) p2p.CreateMessage {
 		return dpeer.VerifCreateMessage(dpos.VerifCreateMessage)
 	case "checkaddr":
 		return checkAddrCreate
+	case "spv":
+		// an SPV peer: the reader of the messages the node only writes
+		return func(hdr p2p.Header, r net.Conn) (p2p.Message, error) {
+			switch hdr.GetCMD() {
+			case p2p.CmdMerkleBlock:
+				return peer.CheckAndCreateMessage(hdr, msg.NewMerkleBlock(&ctypes.Header{}), r)
+			default:
+				return nil, errors.New("invalid message")
+			}
+		}
 	}
 	panic("harness: unknown stack " + st)
 }
@@ -118,6 +129,7 @@ var instances = map[string]map[string]func() p2p.Message{
 		"rev_to_dpos": func() p2p.Message { return &dmsg.ResponseRevertToDPOS{} }, "reset_view": func() p2p.Message { return &dmsg.ResetView{} },
 	},
 	"checkaddr": {"version": func() p2p.Message { return &msg.Version{} }},
+	"spv":       {"merkleblock": func() p2p.Message { return msg.NewMerkleBlock(&ctypes.Header{}) }},
 }
 
 func sortedCmds(st string) []string {
@@ -308,6 +320,17 @@ func exec(t []string) string {
 		return "ok"
 	case "wseq":
 		return execWseq(t)
+	case "mrt": // mrt <stack> <magic> <seed> <ntx> <mode> <payload>: a merkle block as the node builds it, written and read back
+		seed, err := strconv.ParseUint(t[3], 10, 64)
+		if err != nil {
+			panic("harness: bad seed")
+		}
+		mb := buildMerkleBlock(seed, atoi(t[4]), atoi(t[5]))
+		p, err := serialize(mb)
+		if err != nil || !bytes.Equal(p, hx.UnHex(t[6])) {
+			return "payload-mismatch"
+		}
+		return roundTrip(t[1], u32(t[2]), "merkleblock", mb, p)
 	case "rt": // rt <stack> <magic> <cmd> <payload>: a real message written over a net.Pipe and read back
 		return execRT(t[1], u32(t[2]), t[3], hx.UnHex(t[4]))
 	}
@@ -375,6 +398,49 @@ func execWseq(t []string) string {
 	return hx.Hex(lastWire)
 }
 
+// buildMerkleBlock is what the node sends for a filtered block: n transactions derived from seed, a bloom filter
+// matching none (mode 0) / one (1) / all (2) of them, bloom.NewMerkleBlock.
+func buildMerkleBlock(seed uint64, n, mode int) *msg.MerkleBlock {
+	r := hx.NewRand(seed)
+	if mode == 3 {
+		// free-form: n announced transactions, any hashes and flag bytes MerkleBlock.Serialize accepts
+		mb := msg.NewMerkleBlock(&mkBlock(fmt.Sprintf("%d:%d:0", 1+r.Intn(1000), r.Intn(1<<30))).Block.Header)
+		mb.Transactions = uint32(n)
+		for i := r.Pick(0, 1, 2, 5, 20); i > 0; i-- {
+			var h common.Uint256
+			copy(h[:], r.Bytes(32))
+			mb.Hashes = append(mb.Hashes, &h)
+		}
+		mb.Flags = r.Bytes(r.Pick(0, 1, 2, 3, 10, 1249, 1250))
+		return mb
+	}
+	d := mkBlock(fmt.Sprintf("%d:%d:0", 1+r.Intn(100000), r.Intn(1<<30)))
+	var watch [][]byte
+	for i := 0; i < n; i++ {
+		rd := bytes.NewReader(randTx(r))
+		txn, err := functions.GetTransactionByBytes(rd)
+		if err != nil || txn.Deserialize(rd) != nil {
+			panic("harness: cannot rebuild tx")
+		}
+		d.Block.Transactions = append(d.Block.Transactions, txn)
+		h := txn.Hash()
+		watch = append(watch, h[:])
+	}
+	f := bloom.LoadFilter(&msg.FilterLoad{Filter: make([]byte, 64), HashFuncs: 3, Tweak: 5})
+	switch mode {
+	case 1:
+		if n > 0 {
+			f.Add(watch[r.Intn(len(watch))])
+		}
+	case 2:
+		for _, w := range watch {
+			f.Add(w)
+		}
+	}
+	mb, _ := bloom.NewMerkleBlock(d.Block, f)
+	return mb
+}
+
 var lastRT struct {
 	written bool
 	kind    string
@@ -404,6 +470,11 @@ func execRT(st string, magic uint32, cmd string, payloadBytes []byte) string {
 			panic("harness: rt payload does not deserialize")
 		}
 	}
+	return roundTrip(st, magic, cmd, m, payloadBytes)
+}
+
+// roundTrip writes m with WriteMessage over a net.Pipe, reads it back through the stack and re-serializes the result.
+func roundTrip(st string, magic uint32, cmd string, m p2p.Message, payloadBytes []byte) string {
 	a, b := net.Pipe()
 	werr := make(chan error, 1)
 	go func() {
@@ -501,7 +572,7 @@ func judgeRead(st string, magic uint32, stream []byte, r readResult) *hx.Violati
 }
 
 func oracle(t []string, out string) *hx.Violation {
-	if out == "panic" && (t[0] == "read" || t[0] == "corrupt" || t[0] == "rt" || t[0] == "hdr") {
+	if out == "panic" && (t[0] == "read" || t[0] == "corrupt" || t[0] == "rt" || t[0] == "mrt" || t[0] == "hdr") {
 		return &hx.Violation{Kind: "panic", Detail: "framing code panicked on bytes from the wire: " + hx.LastPanic()}
 	}
 	switch t[0] {
@@ -530,17 +601,21 @@ func oracle(t []string, out string) *hx.Violation {
 			return nil
 		}
 		return &hx.Violation{Kind: "corruption-accepted", Detail: fmt.Sprintf("byte %d of a valid %s frame changed from %02x to %02x and the read still succeeds as %s", p, orig.cmd, frame[p], nb, r.cmd)}
-	case "rt":
-		if strings.HasPrefix(out, "werr") {
+	case "rt", "mrt":
+		if strings.HasPrefix(out, "werr") || out == "payload-mismatch" {
 			return nil
 		}
-		mk := instances[t[1]][t[3]]
+		cmdName, payloadHex := "merkleblock", t[len(t)-1]
+		if t[0] == "rt" {
+			cmdName = t[3]
+		}
+		mk := instances[t[1]][cmdName]
 		if lastRT.kind == "ok" && !lastRT.equal {
 			return &hx.Violation{Kind: "roundtrip-differs", Detail: "message read back differs from the message written"}
 		}
 		if lastRT.kind != "ok" {
 			return &hx.Violation{Kind: "written-not-readable", Detail: fmt.Sprintf("%s message of %d payload bytes (MaxLength %d) written by WriteMessage is rejected by the reader: %s",
-				t[3], len(hx.UnHex(t[4])), mk().MaxLength(), lastRT.kind)}
+				cmdName, len(hx.UnHex(payloadHex)), mk().MaxLength(), lastRT.kind)}
 		}
 	case "wseq":
 		if out == "payload-mismatch" || strings.HasPrefix(out, "err") || out == "panic" {
@@ -604,6 +679,10 @@ func bucket(t []string, out string) string {
 	case "rt":
 		if len(f) >= 2 {
 			return "rt/" + t[1] + "/" + f[0] + "/" + f[1]
+		}
+	case "mrt":
+		if len(f) >= 1 {
+			return "mrt/mode" + t[5] + "/" + f[0]
 		}
 	case "wseq":
 		return fmt.Sprintf("wseq/len%d", len(strings.Split(t[2], ".")))
@@ -739,6 +818,47 @@ func constructed(r *hx.Rand, st, cmd string) []byte {
 		m = &msg.TxFilterLoad{Type: uint8(r.Intn(6)), Data: r.Bytes(r.Pick(0, 10, 1000, 49999, 50000))}
 	case "elanet/tx", "dpos/tx":
 		return randTx(r)
+	case "spv/merkleblock":
+		// (a) what the node really sends: bloom.NewMerkleBlock on a block with several transactions and a filter that
+		//     matches none / some / all of them (all = dense partial merkle tree, most flag bits);
+		// (b) free-form: any transaction count, hashes and flag bytes Serialize accepts
+		if r.Bool() {
+			d := mkBlock(fmt.Sprintf("%d:%d:0", 1+r.Intn(100000), r.Intn(1<<30)))
+			n := r.Pick(1, 2, 3, 5, 8, 9, 16, 17, 33)
+			var watch [][]byte
+			for i := 0; i < n; i++ {
+				rd := bytes.NewReader(randTx(r))
+				txn, err := functions.GetTransactionByBytes(rd)
+				if err != nil || txn.Deserialize(rd) != nil {
+					panic("harness: cannot rebuild tx")
+				}
+				d.Block.Transactions = append(d.Block.Transactions, txn)
+				h := txn.Hash()
+				watch = append(watch, h[:])
+			}
+			f := bloom.LoadFilter(&msg.FilterLoad{Filter: make([]byte, 64), HashFuncs: 3, Tweak: 5})
+			switch r.Intn(3) {
+			case 0: // nothing matches
+			case 1:
+				f.Add(watch[r.Intn(len(watch))])
+			default:
+				for _, w := range watch {
+					f.Add(w)
+				}
+			}
+			mb, _ := bloom.NewMerkleBlock(d.Block, f)
+			m = mb
+		} else {
+			mb := msg.NewMerkleBlock(&mkBlock(fmt.Sprintf("%d:%d:0", 1+r.Intn(1000), r.Intn(1<<30))).Block.Header)
+			mb.Transactions = uint32(r.Pick(0, 1, 2, 7, 8, 9, 100, 10000, 10001, 1<<31, int(uint32(r.U64()))))
+			for i := r.Pick(0, 1, 2, 5, 20); i > 0; i-- {
+				var h common.Uint256
+				copy(h[:], r.Bytes(32))
+				mb.Hashes = append(mb.Hashes, &h)
+			}
+			mb.Flags = r.Bytes(r.Pick(0, 1, 2, 3, 10, 1249, 1250))
+			m = mb
+		}
 	case "elanet/block", "dpos/block":
 		d := mkBlock(fmt.Sprintf("%d:%d:%d", 1+r.Intn(100000), r.Intn(1<<30), r.Pick(0, 0, 1, 3)))
 		for i := r.Pick(0, 1, 2); i > 0; i-- {
@@ -900,7 +1020,7 @@ var magics = []uint32{2017001, 2018101, 2018201, 0, math.MaxUint32, 0x01020304}
 
 func gen(g *hx.Gen) {
 	r := g.R
-	stacks := []string{"elanet", "dpos", "checkaddr"}
+	stacks := []string{"elanet", "dpos", "checkaddr", "spv"}
 
 	// 1. header codec: Deserialize / Serialize / GetCMD on structured and random 24-byte buffers
 	for i := 0; i < g.N(600, 6000); i++ {
@@ -1121,7 +1241,7 @@ func gen(g *hx.Gen) {
 	}
 
 	// 4d. the structured codecs modelled at value level (Model/P2PCodec.lean): valid payloads and every kind of prefix
-	for _, sc := range [][2]string{{"elanet", "block"}, {"dpos", "block"}, {"elanet", "reject"}, {"elanet", "daddr"}, {"elanet", "tx"}, {"dpos", "tx"}, {"dpos", "proposal"}, {"dpos", "acc_vote"},
+	for _, sc := range [][2]string{{"spv", "merkleblock"}, {"elanet", "block"}, {"dpos", "block"}, {"elanet", "reject"}, {"elanet", "daddr"}, {"elanet", "tx"}, {"dpos", "tx"}, {"dpos", "proposal"}, {"dpos", "acc_vote"},
 		{"dpos", "rej_vote"}, {"dpos", "reset_view"}, {"dpos", "ina_ars"}, {"dpos", "rev_to_dpos"}, {"dpos", "ill_pro"}, {"dpos", "side_ill"},
 		{"dpos", "verack"}, {"dpos", "addr"}} {
 		max := int(instances[sc[0]][sc[1]]().MaxLength())
@@ -1181,6 +1301,17 @@ func gen(g *hx.Gen) {
 			fmt.Fprintf(&sb, " %s %s", d, hx.Hex(freshBlockBytes(mkBlock(d))))
 		}
 		g.Emit("%s", sb.String())
+	}
+
+	// merkle blocks as the node sends them (none / one / all transactions matched, 1..33 transactions) and free-form ones
+	for k := 0; k < g.N(60, 600); k++ {
+		seed, n, mode := r.U64()>>1, r.Pick(1, 2, 3, 4, 5, 7, 8, 9, 15, 16, 17, 33), r.Intn(4)
+		if mode == 3 {
+			n = r.Pick(0, 1, 7, 8, 100, 9999, 10000, 10001, 1<<31-1)
+		}
+		if p, err := serialize(buildMerkleBlock(seed, n, mode)); err == nil {
+			g.Emit("mrt spv %d %d %d %d %s", magics[r.Intn(3)], seed, n, mode, hx.Hex(p))
+		}
 	}
 
 	ext := extremes(r)
